@@ -475,6 +475,20 @@ func TestC09(t *testing.T) {
 					ev.Class("systematic-version-markers")
 				}
 			}
+			// headers that consist of one repeated byte (erased flash is all $FF, an unprogrammed image all $00), and such a
+			// header with one other byte in it
+			for _, fill := range []byte{0x00, 0xFF, 0x33, 0x20, 0x01} {
+				for _, odd := range []int{-1, 0, 0x24, 0x2A, 0x4F} {
+					hdr := bytes.Repeat([]byte{fill}, 80)
+					if odd >= 0 {
+						hdr[odd] ^= 0x81
+					}
+					c := c09Case{Header: hdr, Banks: 1, FlipPos: 0x15, FlipVal: fill ^ 0x40}
+					r.CheckSweep("constant-fill", c, func() error { return c09Check(c) })
+					ev.Case(true, rig.Hash64(c.Header, c.Banks, c.Tail, c.FlipPos, c.FlipVal), func() interface{} { return c })
+					ev.Class("systematic-constant-fill-headers")
+				}
+			}
 			r.Rapid("rapid", rig.Pick(40000, 200000), func(t *rapid.T) {
 				c := c09Gen(t)
 				r.Check(t, "rapid", c, func() error { return c09Check(c) })
